@@ -36,6 +36,14 @@ MODULES = ["OllamaVerif.Properties.C06"]
 THEOREMS = [
     "OllamaVerif.C06.mask_exact",
     "OllamaVerif.C06.mask_exact_all_histories",
+    "OllamaVerif.C06.forward_exposes_stored_history",
+    "OllamaVerif.C06.startForward_put_abs_perm",
+    "OllamaVerif.C06.forward_abs_perm",
+    "OllamaVerif.C06.slideSeq_abs",
+    "OllamaVerif.C06.slide_abs",
+    "OllamaVerif.C06.evict_invisible",
+    "OllamaVerif.C06.specSlide_invisible",
+    "OllamaVerif.C06.encoder_cached_exact",
     "OllamaVerif.C06.inv_run",
     "OllamaVerif.C06.startForward_inv",
     "OllamaVerif.C06.wrapper_mask_exact",
